@@ -141,3 +141,51 @@ func valueUsedAfterError(c *cx, id string, scope []*eng.Fn) int {
 	}
 	return n
 }
+
+// handlerCallbacksChecked (sibling cross-check): the library's handler types
+// carry their application callbacks in exported func-typed fields; most of
+// them (blocklist, xtime, bin, muc, receipts) test the field before calling it,
+// so the zero value is a usable handler. A Handle* method that calls such a
+// field of its receiver without a dominating non-nil test panics on the first
+// matching stanza a peer sends to a handler registered without the callback.
+func handlerCallbacksChecked(c *cx, id string) int {
+	n := 0
+	for _, f := range c.allFns() {
+		if f.Obj == nil || f.Body == nil || f.Sig() == nil || f.Sig().Recv() == nil {
+			continue
+		}
+		switch f.Obj.Name() {
+		case "HandleXMPP", "HandleIQ", "HandleMessage", "HandlePresence":
+		default:
+			continue
+		}
+		g := f.Graph()
+		for _, cl := range f.AllCalls() {
+			sel, ok := ast.Unparen(cl.Fun).(*ast.SelectorExpr)
+			if !ok {
+				continue
+			}
+			s := f.Info().Selections[sel]
+			if s == nil || s.Kind() != types.FieldVal || !s.Obj().Exported() {
+				continue
+			}
+			if _, isFunc := s.Obj().Type().Underlying().(*types.Signature); !isFunc {
+				continue
+			}
+			x := f.Norm(sel.X, nil)
+			if x != "recv" && !strings.HasPrefix(x, "recv.") {
+				continue
+			}
+			// only calls in the method's own body (not in nested literals)
+			pt, okp := g.Where(cl)
+			if !okp {
+				continue
+			}
+			n++
+			fld := f.Norm(sel, nil)
+			okd, why := g.DominatedAny(pt, []string{"!eq(" + fld + ",nil)"})
+			c.r.Check(id, f, "callback "+fld+" called", "G: a callback field of the handler is called only after a non-nil test (the zero value of the handler must not panic on peer input)", cl.Pos(), okd, why)
+		}
+	}
+	return n
+}
